@@ -336,6 +336,9 @@ func c16PEM(c *ev.Ctx, ders [][]byte, lead, trail, between string) {
 		if err == nil {
 			c.Violation("C16:pem:trailing-garbage-accepted", "bundle with trailing garbage accepted", cas)
 		}
+		if oerr == nil {
+			c.Violation("C16:pem:trailing-garbage-accepted:single-certificate-entry-point", fmt.Sprintf("ParsePEMCertificate accepted a text of %d certificate(s) followed by garbage", len(ders)), cas)
+		}
 	case between != "" && strings.TrimSpace(between) != "":
 		c.Outcome("pem-between")
 		if err == nil && !c16SameCerts(got, ders) {
